@@ -40,7 +40,7 @@ Definition c05_cfg : config :=
   {| specs := [c05_spec true; c05_spec false; c05_spec true];
      startup_may_fire := false; shutdown_may_fire := false |}.
 Definition c05_sched : list label :=
-  [LCall 1 OpReloadAll; LRmAccept (SndCaller 1); LRet 1 OpReloadAll;
+  [LRunEnter; LRunEntered; LCall 1 OpReloadAll; LRmAccept (SndCaller 1); LRet 1 OpReloadAll;
    LReloadCall 0; LReloadRet 0; LReloadCall 2; LReloadRet 2].
 Example C05_ex_schedule :
   exists s, run (step c05_cfg) (init c05_cfg) c05_sched = Some s /\
@@ -91,7 +91,7 @@ Definition c05_cfg3 : config :=
                    stop_style := StopNonBlocking; run_exit := ExitOnSignal; held_sub := false |} ];
      startup_may_fire := false; shutdown_may_fire := false |}.
 Definition c05_sched3 : list label :=
-  [LLaunch 0; LCall 1 OpReloadAll; LCall 2 (OpSignal SigHup); LTrigR 0; LSigPut 2; LReapSig;
+  [LRunEnter; LRunEntered; LLaunch 0; LCall 1 OpReloadAll; LCall 2 (OpSignal SigHup); LTrigR 0; LSigPut 2; LReapSig;
    LRmAccept SndHup; LReloadCall 0; LReloadRet 0; LTrigRecvR 0; LRmAccept (SndListener 0)].
 Example C05_ex_count :
   exists s, run (step c05_cfg3) (init c05_cfg3) c05_sched3 = Some s /\
